@@ -199,9 +199,10 @@ class DictArray(StorageBase):
         """Load the dict storage from disk."""
         if self.folder is None:  # pragma: no cover
             return
-        if not self.folder.exists():
+        path = self._path()
+        if not path.is_file():  # never persisted (or interrupted before it was written)
             return
-        self._dict = load(self._path())
+        self._dict = load(path)
 
     @property
     def dump_in_subprocess(self) -> bool:
